@@ -55,6 +55,9 @@ type handler1 struct {
 	topicIDsExhausted bool
 	topicIDMutex      sync.Mutex
 	pktBuffer        []snPkts.Packet
+	// Guards pktBuffer and the client state changes which switch between
+	// buffering and direct sending (snSend is called from both receive loops).
+	sendMutex sync.Mutex
 	group            *errgroup.Group
 	transactions     *transactions.TransactionStore
 	// for testing
@@ -811,15 +814,17 @@ func (h *handler1) handleMqttSn(ctx context.Context, pkt snPkts.Packet) error {
 	// Client PING transaction (going AWAKE or just a keepalive).
 	case *snPkts1.Pingreq:
 		if h.state.Get() == util.StateAsleep {
-			// Must be set before snSend otherwise the packets will be queued...
+			h.sendMutex.Lock()
+			defer h.sendMutex.Unlock()
+			// Must be set before sending otherwise the packets would be queued...
 			h.setState(util.StateAwake)
 			for _, m2 := range h.pktBuffer {
-				if err := h.snSend(m2); err != nil {
+				if err := h.snSendLocked(m2); err != nil {
 					return err
 				}
 			}
 			h.pktBuffer = nil
-			return h.snSend(snPkts1.NewPingresp())
+			return h.snSendLocked(snPkts1.NewPingresp())
 		} else {
 			mqPkt := mqPkts.NewControlPacket(mqPkts.Pingreq).(*mqPkts.PingreqPacket)
 			return h.mqttSend(mqPkt)
@@ -843,12 +848,14 @@ func (h *handler1) handleMqttSn(ctx context.Context, pkt snPkts.Packet) error {
 				cancelPinger := h.startSleepPinger(ctx)
 				time.AfterFunc(time.Duration(snPkt.Duration)*time.Second, cancelPinger)
 			}
+			h.sendMutex.Lock()
+			defer h.sendMutex.Unlock()
 			h.pktBuffer = nil
 			m2 := snPkts1.NewDisconnect(0)
-			if err := h.snSend(m2); err != nil {
+			if err := h.snSendLocked(m2); err != nil {
 				return err
 			}
-			// Must be set after snSend otherwise the packet will be queued...
+			// Must be set after sending otherwise the packet would be queued...
 			h.setState(util.StateAsleep)
 			return nil
 		}
@@ -919,6 +926,13 @@ func (h *handler1) startSleepPinger(ctx context.Context) context.CancelFunc {
 }
 
 func (h *handler1) snSend(pkt snPkts.Packet) error {
+	h.sendMutex.Lock()
+	defer h.sendMutex.Unlock()
+	return h.snSendLocked(pkt)
+}
+
+// You must hold h.sendMutex before calling this function!
+func (h *handler1) snSendLocked(pkt snPkts.Packet) error {
 	if h.state.Get() == util.StateAsleep {
 		h.log.Debug("Queued %v", pkt)
 		h.pktBuffer = append(h.pktBuffer, pkt)
